@@ -14,9 +14,13 @@ pub(super) fn index_for_rcurrent(
 ) -> Result<u32, std::io::Error> {
     // we believe what we get - but if we get nothing, we determine what's next
     // according to the filesystem
-    let mut index_for_rcurrent = o_index_for_rcurrent
-        .or_else(|| get_highest_index(&config.file_spec).map(|idx| idx + 1))
-        .unwrap_or(0);
+    let mut index_for_rcurrent = match o_index_for_rcurrent {
+        Some(idx) => idx,
+        None => match get_highest_index(&config.file_spec) {
+            Some(idx) => next_index(idx)?,
+            None => 0,
+        },
+    };
 
     if rotate_rcurrent {
         #[cfg(feature = "verif_hooks")]
@@ -28,7 +32,7 @@ pub(super) fn index_for_rcurrent(
                 .as_pathbuf(Some(&number_infix(index_for_rcurrent))),
         ) {
             Ok(()) => {
-                index_for_rcurrent += 1;
+                index_for_rcurrent = next_index(index_for_rcurrent)?;
             }
             Err(e) => {
                 if e.kind() != std::io::ErrorKind::NotFound {
@@ -38,6 +42,12 @@ pub(super) fn index_for_rcurrent(
         }
     }
     Ok(index_for_rcurrent)
+}
+
+// the number after idx; an existing file can carry the highest number there is
+pub(super) fn next_index(idx: u32) -> Result<u32, std::io::Error> {
+    idx.checked_add(1)
+        .ok_or_else(|| crate::util::io_err("the numbers for log files are used up"))
 }
 
 pub(super) fn get_highest_index(file_spec: &FileSpec) -> Option<u32> {
